@@ -575,6 +575,12 @@ func (fc *FuncCtx) binopFormula(x *ssa.BinOp) *bddNode {
 		} else if la := lenArg(a); la != nil && isIntConst(b, 1) {
 			// len(s) < 1 -> empty(s)
 			f = fc.emptyAtom(x, la)
+		} else if rem := nonNegRem(b); rem != nil && isIntConst(a, 0) {
+			// 0 < len(x) % n  ->  len(x) % n != 0  (the remainder of a length is never negative)
+			f = B.Not(fc.eqFormula(x, rem, a))
+		} else if rem := nonNegRem(a); rem != nil && isIntConst(b, 1) {
+			// len(x) % n < 1  ->  len(x) % n == 0
+			f = fc.eqFormula(x, rem, ssa.NewConst(constant.MakeInt64(0), rem.Type()))
 		} else {
 			if found, ok := fc.foundByIndex(a); ok && isIntConst(b, 0) {
 				// slices.Index*(...) < 0: not found
@@ -1068,6 +1074,24 @@ var nonNilReturning = map[string]bool{
 
 func (fc *FuncCtx) nonNil0(v ssa.Value) *bddNode {
 	B := fc.A.B
+	if ld, isLoad := v.(*ssa.UnOp); isLoad {
+		// a field of a result struct kept in a local
+		if call, idx, ok := callComponent(ld); ok && idx < 0 {
+			if sc := call.Call.StaticCallee(); sc != nil && len(sc.Blocks) > 0 {
+				okAll := true
+				for _, rt := range returnsOf(sc) {
+					if retComponent(rt, idx) == nil {
+						okAll = false
+					}
+				}
+				if okAll {
+					if f, ok := fc.inlineResult(call, sc, idx); ok {
+						return f
+					}
+				}
+			}
+		}
+	}
 	switch x := v.(type) {
 	case *ssa.Const:
 		if x.Value == nil {
@@ -1129,10 +1153,23 @@ func (fc *FuncCtx) nonNil0(v ssa.Value) *bddNode {
 				}
 			}
 		}
-	case *ssa.Extract:
-		if call, ok := x.Tuple.(*ssa.Call); ok {
+	case *ssa.Extract, *ssa.Field:
+		if call, idx, ok := callComponent(x.(ssa.Value)); ok {
 			if sc := call.Call.StaticCallee(); sc != nil {
-				if f, ok := fc.inlineResult(call, sc, x.Index); ok {
+				if idx < 0 {
+					// a field of a result struct: only when every return's field can be told
+					sub0 := sc
+					okAll := len(sub0.Blocks) > 0
+					for _, rt := range returnsOf(sub0) {
+						if retComponent(rt, idx) == nil {
+							okAll = false
+						}
+					}
+					if !okAll {
+						break
+					}
+				}
+				if f, ok := fc.inlineResult(call, sc, idx); ok {
 					return f
 				}
 			}
@@ -1230,6 +1267,15 @@ func (fc *FuncCtx) elemFuncFormula(xs, pred ssa.Value, site *ssa.Call, wrap bool
 // foundByIndex: v is the result of slices.Index(xs, x) / slices.IndexFunc(xs, pred): the formula "an element was found"
 // (the result is >= 0), which is what slices.Contains / ContainsFunc of the same arguments says.
 func (fc *FuncCtx) foundByIndex(v ssa.Value) (*bddNode, bool) {
+	if ph, ok := v.(*ssa.Phi); ok && isIntegerType(ph.Type()) {
+		// idx := -1; for i := range xs { if C(xs[i]) { idx = i; break } }: "idx >= 0" is "some element satisfies C"
+		sawNeg, sawIdx := false, false
+		f, ok := fc.indexFound(ph, 0, &sawNeg, &sawIdx)
+		if ok && sawNeg && sawIdx {
+			return f, true
+		}
+		return nil, false
+	}
 	c, ok := v.(*ssa.Call)
 	if !ok || len(c.Call.Args) != 2 {
 		return nil, false
@@ -1252,6 +1298,88 @@ func (fc *FuncCtx) foundByIndex(v ssa.Value) (*bddNode, bool) {
 		return fc.A.atom("eq("+sa+","+sb+")", "eq", fc, c, []ssa.Value{va, vb}, sa, sb), true
 	}
 	return nil, false
+}
+
+// indexFound: the formula "v >= 0" for an integer that records the position of a match: the constant -1 (not found), a
+// loop index (found at that element), merged by phis; a loop-header phi is the flag idiom over "idx >= 0".
+func (fc *FuncCtx) indexFound(v ssa.Value, depth int, sawNeg, sawIdx *bool) (*bddNode, bool) {
+	B := fc.A.B
+	if depth > 6 {
+		return nil, false
+	}
+	if c, ok := v.(*ssa.Const); ok {
+		if isIntConst(c, -1) {
+			*sawNeg = true
+			return B.False, true
+		}
+		return nil, false
+	}
+	if nonNegInduction(v) {
+		*sawIdx = true
+		return B.True, true
+	}
+	ph, ok := v.(*ssa.Phi)
+	if !ok {
+		return nil, false
+	}
+	fc.ensureConds()
+	if _, isHeader := fc.loops[ph.Block()]; isHeader {
+		return fc.flagLoopWith(ph, func(x ssa.Value) (*bddNode, bool) {
+			if _, isPhi := x.(*ssa.Phi); isPhi {
+				return nil, false
+			}
+			return fc.indexFound(x, depth+1, sawNeg, sawIdx)
+		})
+	}
+	okAll := true
+	f, ok := fc.gated(ph, func(e ssa.Value) *bddNode {
+		g, ok := fc.indexFound(e, depth+1, sawNeg, sawIdx)
+		if !ok {
+			okAll = false
+			return B.False
+		}
+		return g
+	})
+	if !ok || !okAll {
+		return nil, false
+	}
+	return f, true
+}
+
+// nonNegInduction: v counts the iterations of a loop from zero: the index of a range loop (go/ssa: phi(-1, phi+1) + 1) or
+// of for i := 0; ...; i++.
+func nonNegInduction(v ssa.Value) bool {
+	if bo, ok := v.(*ssa.BinOp); ok && bo.Op == token.ADD && isIntConst(bo.Y, 1) {
+		if ph, ok := bo.X.(*ssa.Phi); ok {
+			for i, e := range ph.Edges {
+				if isBackEdge(ph.Block().Preds[i], ph.Block()) {
+					if e != ssa.Value(bo) {
+						return false
+					}
+				} else if !isIntConst(e, -1) && !isIntConst(e, 0) {
+					return false
+				}
+			}
+			return true
+		}
+		return false
+	}
+	if ph, ok := v.(*ssa.Phi); ok {
+		back := 0
+		for i, e := range ph.Edges {
+			if isBackEdge(ph.Block().Preds[i], ph.Block()) {
+				back++
+				inc, ok := e.(*ssa.BinOp)
+				if !ok || inc.Op != token.ADD || inc.X != ssa.Value(ph) || !isIntConst(inc.Y, 1) {
+					return false
+				}
+			} else if !isIntConst(e, 0) {
+				return false
+			}
+		}
+		return back > 0
+	}
+	return false
 }
 
 // closureArg: v is a func-typed parameter of a function analysed as part of its caller, and the caller passed a
@@ -1370,12 +1498,12 @@ func (fc *FuncCtx) callResultGated(v ssa.Value, f func(sub *FuncCtx, rv ssa.Valu
 	switch x := v.(type) {
 	case *ssa.Call:
 		call = x
-	case *ssa.Extract:
-		c, ok := x.Tuple.(*ssa.Call)
+	case *ssa.Extract, *ssa.Field, *ssa.UnOp:
+		c, i, ok := callComponent(x)
 		if !ok {
 			return nil, false
 		}
-		call, idx = c, x.Index
+		call, idx = c, i
 	default:
 		return nil, false
 	}
@@ -1393,11 +1521,12 @@ func (fc *FuncCtx) callResultGated(v ssa.Value, f func(sub *FuncCtx, rv ssa.Valu
 	acc := B.False
 	n := 0
 	for _, ret := range sub.Returns() {
-		if idx >= len(ret.Results) {
+		rv := retComponent(ret, idx)
+		if rv == nil {
 			return nil, false
 		}
 		n++
-		acc = B.Or(acc, B.And(sub.Cond(ret.Block()), f(sub, ret.Results[idx])))
+		acc = B.Or(acc, B.And(sub.Cond(ret.Block()), f(sub, rv)))
 	}
 	return acc, n > 0
 }
@@ -1451,12 +1580,153 @@ func (fc *FuncCtx) ResultFormula(idx int, f func(ssa.Value) *bddNode) *bddNode {
 	B := fc.A.B
 	acc := B.False
 	for _, r := range fc.Returns() {
-		if idx >= len(r.Results) {
+		rv := retComponent(r, idx)
+		if rv == nil {
 			continue
 		}
-		acc = B.Or(acc, B.And(fc.Cond(r.Block()), f(r.Results[idx])))
+		acc = B.Or(acc, B.And(fc.Cond(r.Block()), f(rv)))
 	}
 	return acc
+}
+
+// retComponent: component idx of what the Return hands back: result idx of the tuple for idx >= 0; for idx < 0 the field
+// -idx-1 of the single struct result (a literal, or a local assigned field by field; a field that is never assigned is
+// the zero value). nil when it cannot be told.
+func retComponent(r *ssa.Return, idx int) ssa.Value {
+	if idx >= 0 {
+		if idx >= len(r.Results) {
+			return nil
+		}
+		return r.Results[idx]
+	}
+	if len(r.Results) != 1 {
+		return nil
+	}
+	k := -idx - 1
+	ld, ok := r.Results[0].(*ssa.UnOp)
+	if !ok || ld.Op != token.MUL {
+		return nil
+	}
+	al, ok := ld.X.(*ssa.Alloc)
+	if !ok || al.Referrers() == nil {
+		return nil
+	}
+	st, ok := al.Type().(*types.Pointer).Elem().Underlying().(*types.Struct)
+	if !ok || k >= st.NumFields() {
+		return nil
+	}
+	var val ssa.Value
+	n := 0
+	for _, rf := range *al.Referrers() {
+		switch u := rf.(type) {
+		case *ssa.FieldAddr:
+			if u.Field != k {
+				continue
+			}
+			for _, r2 := range *u.Referrers() {
+				if s, ok := r2.(*ssa.Store); ok && s.Addr == ssa.Value(u) {
+					if !(s.Block() == r.Block() || s.Block().Dominates(r.Block())) {
+						return nil
+					}
+					val = s.Val
+					n++
+				} else if _, isLoad := r2.(*ssa.UnOp); !isLoad {
+					return nil // address escapes
+				}
+			}
+		case *ssa.Store:
+			if u.Addr == ssa.Value(al) {
+				return nil // whole-struct assignment
+			}
+		}
+	}
+	switch n {
+	case 0:
+		return zeroConst(st.Field(k).Type())
+	case 1:
+		return val
+	}
+	return nil
+}
+
+func zeroConst(t types.Type) ssa.Value {
+	switch u := t.Underlying().(type) {
+	case *types.Basic:
+		switch {
+		case u.Info()&types.IsString != 0:
+			return ssa.NewConst(constant.MakeString(""), t)
+		case u.Info()&types.IsBoolean != 0:
+			return ssa.NewConst(constant.MakeBool(false), t)
+		case u.Info()&types.IsNumeric != 0:
+			return ssa.NewConst(constant.MakeInt64(0), t)
+		}
+	case *types.Pointer, *types.Interface, *types.Slice, *types.Map, *types.Signature, *types.Chan:
+		return ssa.NewConst(nil, t)
+	}
+	return nil
+}
+
+// callComponent: v is a component of the result of a call: result #i of a tuple (Extract), or a field of a struct result
+// (Field): the call and the component index in the convention of retComponent.
+func callComponent(v ssa.Value) (*ssa.Call, int, bool) {
+	switch x := v.(type) {
+	case *ssa.Extract:
+		if c, ok := x.Tuple.(*ssa.Call); ok {
+			return c, x.Index, true
+		}
+	case *ssa.Field:
+		if c, ok := x.X.(*ssa.Call); ok {
+			if _, isStruct := c.Type().Underlying().(*types.Struct); isStruct {
+				return c, -x.Field - 1, true
+			}
+		}
+	case *ssa.UnOp:
+		// parsed := helper(); ... parsed.field: a local that holds the result struct (assigned once, as a whole, and only
+		// read field by field)
+		if x.Op != token.MUL {
+			break
+		}
+		fa, ok := x.X.(*ssa.FieldAddr)
+		if !ok {
+			break
+		}
+		al, ok := fa.X.(*ssa.Alloc)
+		if !ok || al.Referrers() == nil {
+			break
+		}
+		var call *ssa.Call
+		for _, rf := range *al.Referrers() {
+			switch u := rf.(type) {
+			case *ssa.Store:
+				if u.Addr != ssa.Value(al) || call != nil {
+					return nil, 0, false
+				}
+				c, ok := u.Val.(*ssa.Call)
+				if !ok {
+					return nil, 0, false
+				}
+				call = c
+			case *ssa.FieldAddr:
+				for _, r2 := range *u.Referrers() {
+					if ld, ok := r2.(*ssa.UnOp); !ok || ld.Op != token.MUL {
+						if _, isDbg := r2.(*ssa.DebugRef); !isDbg {
+							return nil, 0, false
+						}
+					}
+				}
+			case *ssa.DebugRef:
+			case *ssa.UnOp:
+			default:
+				return nil, 0, false
+			}
+		}
+		if call != nil {
+			if _, isStruct := call.Type().Underlying().(*types.Struct); isStruct {
+				return call, -fa.Field - 1, true
+			}
+		}
+	}
+	return nil, 0, false
 }
 
 // errIndex is the index of the last result if it is of type error, else -1.
@@ -1508,6 +1778,27 @@ func (fc *FuncCtx) Implied(b *ssa.BasicBlock, f *bddNode) bool {
 // flag loops:  flag := I; for range S { if C(e) { flag = true } }   ==>  I | exists e. C(e)
 
 func (fc *FuncCtx) flagLoop(phi *ssa.Phi) (*bddNode, bool) {
+	return fc.flagLoopWith(phi, func(v ssa.Value) (*bddNode, bool) {
+		if c, ok := v.(*ssa.Const); ok && isBoolType(c.Type()) {
+			if c.Value.ExactString() == "true" {
+				return fc.A.B.True, true
+			}
+			return fc.A.B.False, true
+		}
+		// a value computed in the iteration (found = x == e)
+		if isBoolType(v.Type()) {
+			if _, isPhi := v.(*ssa.Phi); !isPhi {
+				return fc.Formula(v), true
+			}
+		}
+		return nil, false
+	})
+}
+
+// flagLoopWith: the flag idiom over a loop-header phi, with leaf giving the truth value of the values assigned to the
+// flag (constants, values computed in the iteration). The flag may be tested inside the loop (for ...; !found; ...):
+// such a test is the variable "self" of one iteration.
+func (fc *FuncCtx) flagLoopWith(phi *ssa.Phi, leaf func(ssa.Value) (*bddNode, bool)) (*bddNode, bool) {
 	B := fc.A.B
 	h := phi.Block()
 	fc.ensureConds()
@@ -1534,18 +1825,15 @@ func (fc *FuncCtx) flagLoop(phi *ssa.Phi) (*bddNode, bool) {
 		return nil, false
 	}
 	// relative conditions inside one iteration
+	// a test of the flag inside the loop is rendered (by Formula, which finds the phi busy) as this very atom
+	self := "v:" + fc.uniq("cyc", phi)
+	wasBusy := fc.busy[phi]
+	fc.busy[phi] = true
 	rel := fc.relConds(h, body)
-	self := "$self:" + fc.uniq("phi", phi)
 	var valF func(v ssa.Value, depth int) (*bddNode, bool)
 	valF = func(v ssa.Value, depth int) (*bddNode, bool) {
 		if v == phi {
 			return B.Var(self), true
-		}
-		if c, ok := v.(*ssa.Const); ok && isBoolType(c.Type()) {
-			if c.Value.ExactString() == "true" {
-				return B.True, true
-			}
-			return B.False, true
 		}
 		if ph, ok := v.(*ssa.Phi); ok && body[ph.Block()] && ph.Block() != h && depth < 8 {
 			if _, nested := fc.loops[ph.Block()]; nested {
@@ -1568,30 +1856,40 @@ func (fc *FuncCtx) flagLoop(phi *ssa.Phi) (*bddNode, bool) {
 			}
 			return acc, true
 		}
-		return nil, false
+		return leaf(v)
+	}
+	restore := func() {
+		if !wasBusy {
+			delete(fc.busy, phi)
+		}
 	}
 	set := B.False
 	for i, lv := range latchVals {
 		f, ok := valF(lv, 0)
 		if !ok {
+			restore()
 			return nil, false
 		}
 		rc := rel[latchPreds[i]]
 		if rc == nil {
 			rc = B.True
 		}
-		f = B.And(rc, f)
-		// monotone: once set, stays set
-		if !B.Implies(rc, B.Restrict(f, self, true)) {
+		// monotone: once set, stays set (vacuously when the loop does not iterate with the flag set)
+		if !B.Implies(B.Restrict(rc, self, true), B.Restrict(f, self, true)) {
+			restore()
 			return nil, false
 		}
-		set = B.Or(set, B.Restrict(f, self, false))
+		set = B.Or(set, B.Restrict(B.And(rc, f), self, false))
 	}
-	if fc.cycHit[phi] {
-		// the loop body tests the flag itself: not the simple "set once" idiom
-		return nil, false
+	restore()
+	fi, ok := leaf(init)
+	if !ok {
+		if !isBoolType(init.Type()) {
+			return nil, false
+		}
+		fi = fc.Formula(init)
 	}
-	return B.Or(fc.Formula(init), fc.existsAtom(set, phi)), true
+	return B.Or(fi, fc.existsAtom(set, phi)), true
 }
 
 // relConds: path conditions relative to the loop header (one iteration, back edges removed).
@@ -1795,4 +2093,17 @@ func (fc *FuncCtx) addDuration(t *TimeTerm, d ssa.Value, k int64) {
 		return
 	}
 	t.Coef[fc.AP(d)] += k
+}
+
+func isIntegerType(t types.Type) bool {
+	b, ok := t.Underlying().(*types.Basic)
+	return ok && b.Info()&types.IsInteger != 0
+}
+
+// nonNegRem: v is len(x) % n (possibly through a single-store local): a remainder that cannot be negative.
+func nonNegRem(v ssa.Value) ssa.Value {
+	if bo, ok := v.(*ssa.BinOp); ok && bo.Op == token.REM && lenArg(bo.X) != nil {
+		return v
+	}
+	return nil
 }
